@@ -408,7 +408,7 @@ def _project_convexity(heights, lengths, convexity, constraint_group):
 
   num_heights = heights.shape.dims[0].value
   # To avoid broadcasting when performing math ops with 'heights'.
-  lengths = tf.reshape(lengths, shape=(-1, 1))
+  lengths = tf.cast(tf.reshape(lengths, shape=(-1, 1)), dtype=heights.dtype)
 
   # Split heigths and lengths into pairs which correspond to given constraint
   # group. In order to do this we need to split heights into odd and even. We
